@@ -5,9 +5,10 @@
    op 1  n > 30, one call; oracle values recomputed by the harness from stats.NormalDist:
          11 1 n qbits cbits  mubits l1bits r1bits l0 r0 band_lr band_lr1 cdf_l1 cdf_hi cdf_lo cdf_hi1
               Nobs Qobsbits confbits lo hi amb
-         (mu = norm.Mu, l1 = norm.InvCDF((1-c)/2), r1 = 2*mu-l1 in floats, l0/r0 the rounded band,
-          band_lr = CDF(r0-.5)-CDF(l0-.5), band_lr1 = CDF(r0-1.5)-CDF(l0-.5), cdf_l1 = CDF(l1),
-          cdf_hi = CDF(r0-.5), cdf_lo = CDF(l0-.5), cdf_hi1 = CDF(r0-1.5))
+         (mu = norm.Mu, l1 = norm.InvCDF(alpha), alpha = (1-c)/2 capped at 1/2, r1 = 2*mu-l1 in floats,
+          l0/r0 the rounded band, la = r0-1 if r0 <= l0 else l0 (the left end used),
+          band_lr = CDF(r0-.5)-CDF(la-.5), band_lr1 = CDF(r0-1.5)-CDF(la-.5), cdf_l1 = CDF(l1),
+          cdf_hi = CDF(r0-.5), cdf_lo = CDF(la-.5), cdf_hi1 = CDF(r0-1.5))
    op 2  SampleCI:  11 2 N lo hi qbits weighted sortedflag status xs_before xs_after qret loret hiret qref
          (status 0 returned, 2 panicked; qref = Quantile(q) of a sorted copy, computed by the harness) *)
 From MM Require Import Base.Num Base.GFSum Model.Choose Model.Binom Model.QuantileCI Check.C06.
@@ -54,12 +55,21 @@ Definition match_small (sh : Z) (o : qobs) (r : qres) : bool :=
   | _ => false
   end.
 
-(* the property's own order claim, checked on the observation itself whenever 0 < c *)
-Definition orders_ok (n : Z) (c : Q) (o : qobs) : bool :=
-  Qle_bool c 0 || ((0 <=? o_lo o) && (o_lo o <? o_hi o) && (o_hi o <=? n + 1)).
+(* the property's own order claim, checked on the observation itself, for every c *)
+Definition orders_ok (n : Z) (o : qobs) : bool :=
+  (0 <=? o_lo o) && (o_lo o <? o_hi o) && (o_hi o <=? n + 1).
 
 Definition is_full (n : Z) (o : qobs) : bool :=
   (o_lo o =? 0) && (o_hi o =? n + 1) && negb (o_amb o) && xeq (XFin 1) (o_conf o).
+
+(* the admissible outcomes for the level c = cn/2^j on the integer masses of unit 1/D, D = 2^(e n):
+   the accumulated integer is scaled by sc = 2^j and compared with the integer cn * D = sc * (D * c).
+   Proofs/QuantileCIScale.v (comparator_outs_contain_model): this set contains the result of the
+   deterministic model on the rational Binomial(n,q) PMF at level c. *)
+Definition small_outs (P : Z -> Q) (n : Z) (g : list (list (st * list st))) (e : Z) (exact : bool) (c : Q) : list qres :=
+  let sc := inject_Z (Zpos (Qden c)) in
+  let c' := inject_Z (Z.shiftl (Qnum c) (e * n)) in
+  qci_small_set P (if exact then 0%Q else ieps_border) n g sc c'.
 
 (* one item of an op-0 line; returns (verdict code, tag) and diagnostics.  [g] is the transition
    graph of the line over the integer masses w_k (unit 1/D, D = 2^(e n)); c = cn/2^j is compared as
@@ -67,13 +77,12 @@ Definition is_full (n : Z) (o : qobs) : bool :=
 Definition check_small_item (P : Z -> Q) (n : Z) (x : Z) (qbits : Z) (g : list (list (st * list st))) (e : Z) (exact : bool)
                             (c : Q) (o : qobs) : Z * Z * list Z :=
   if negb ((o_n o =? n) && (o_qbits o =? qbits)) then (V_MISMATCH, 1, [0])
-  else if negb (orders_ok n c o) then (V_MISMATCH, 1, [9])
+  else if negb (orders_ok n o) then (V_MISMATCH, 1, [9])
   else if Qle_bool 1 c then (if is_full n o then (V_OK, 3, []) else (V_MISMATCH, 3, [1]))
   else
     let sc := inject_Z (Zpos (Qden c)) in
     let c' := inject_Z (Z.shiftl (Qnum c) (e * n)) in
-    let eps := if exact then 0%Q else ieps_border in
-    let outs := qci_small_set P eps n g sc c' in
+    let outs := small_outs P n g e exact c in
     (* for small n the deterministic model function [qci_small] (the one the theorems are about) is run
        as well, on the same integer masses: its result must be one of the admissible outcomes *)
     let det_ok := if 10 <? n then true else
@@ -139,7 +148,8 @@ Definition check_C11 (line : list Z) : list Z :=
           | XFin q =>
               if (n <=? qci_threshold) || Qltb q 0 || Qltb 1 q then verdict V_MALFORMED 0 (-1) [] else
               if negb ((o_n o =? n) && (o_qbits o =? qb)) then verdict V_MISMATCH 128 0 [] else
-              if negb (orders_ok n c o) then verdict V_MISMATCH 128 9 [] else
+              (* the property's order claim on the observation itself, for every c *)
+              if negb (orders_ok n o) then verdict V_MISMATCH (Z.lor 128 (if Qle_bool c 0 then 16384 else 0)) 9 [o_lo o; o_hi o] else
               if Qle_bool 1 c then (if is_full n o then verdict V_OK 130 (-1) [] else verdict V_MISMATCH 130 1 []) else
               match mu, l1, r1, b1, b2, ch, cl, ch1 with
               | XFin mu, XFin l1, XFin r1, XFin b1, XFin b2, XFin ch, XFin cl, XFin ch1 =>
@@ -153,23 +163,27 @@ Definition check_C11 (line : list Z) : list Z :=
                   let l := Qfloor (l1 - (1 # 2))%Q + 1 in
                   let r := Qceiling (r1 - (1 # 2))%Q + 1 in
                   if negb ((l =? l0) && (r =? r0)) then verdict V_MISMATCH 128 5 [l; r; l0; r0] else
+                  (* the left end the band logic uses: an empty rounded band keeps the bucket below r *)
+                  let la := if r <=? l then r - 1 else l in
                   (* l1 really is the alpha-quantile of the approximating normal (accuracy of InvCDF/CDF
                      themselves belongs to C05): |CDF(l1) - (1-c)/2| <= 1e-9 *)
                   let alpha_ok := match pl1 with
-                                  | XFin p => within (1 # 1000000000) ((1 - c) / 2)%Q p
+                                  | XFin p => within (1 # 1000000000) (qci_alpha c) p
                                   | _ => Qeq_bool q 0 || Qeq_bool q 1
                                   end in
                   if negb alpha_ok then verdict V_MISMATCH 128 6 [] else
-                  let band := fun a b : Z => if (a =? l0) && (b =? r0) then b1
-                                             else if (a =? l0) && (b =? r0 - 1) then b2 else (-1)%Q in
+                  let band := fun a b : Z => if (a =? la) && (b =? r0) then b1
+                                             else if (a =? la) && (b =? r0 - 1) then b2 else (-1)%Q in
                   let ex := qci_normal band n c l1 r1 in
                   let tag := Z.lor 128 (Z.lor (if r_amb ex then 256 else 0)
-                             (Z.lor (if (l <=? 0) && (n + 1 <=? r_hi ex) then 512 else 0)
-                             (Z.lor (if (l <? 0) || (n + 1 <? r) then 16 else 0)
-                                    (if Qle_bool c b2 then 1024 else 0)))) in
+                             (Z.lor (if (la <=? 0) && (n + 1 <=? r_hi ex) then 512 else 0)
+                             (Z.lor (if (la <? 0) || (n + 1 <? r) then 16 else 0)
+                             (Z.lor (if Qle_bool c b2 then 1024 else 0)
+                                    (if Qle_bool c 0 then 16384 else 0))))) in
                   if (r_lo ex =? o_lo o) && (r_hi ex =? o_hi o) && Bool.eqb (r_amb ex) (o_amb o)
                      && xeq (XFin (r_conf ex)) (o_conf o) && Qle_bool c (r_conf ex)
-                  then verdict V_OK tag (-1) []
+                  then (if orders_ok n o then verdict V_OK tag (-1) []
+                        else verdict V_MISMATCH tag 9 [o_lo o; o_hi o])
                   else verdict V_MISMATCH tag 7 ([r_lo ex; r_hi ex; (if r_amb ex then 1 else 0)] ++ qdiag (r_conf ex))
               | _, _, _, _, _, _, _, _ => verdict V_MISMATCH 128 8 []
               end
